@@ -246,3 +246,82 @@ func c06codec(c *Ctx) {
 		c.R.Undecided(rule, "cache-aside packages#codec-sites", "the jsonx decode and encode sites are recognised", fmt.Sprintf("%d decode, %d encode sites", dec, enc))
 	}
 }
+
+// c06notFoundIsNotAnError (C06.R11, round 6): "database errors are returned and never cached". The row scanner reports
+// "not found" — which the cache layer turns into a cached placeholder — only when the result set ended cleanly: on
+// every path of sqlx.unmarshalRow that returns ErrNotFound, rows.Err() was consulted after Next() returned false and
+// found nil. A driver error delivered with the first fetch otherwise reads as "no such row": the placeholder is cached
+// and an existing row stays invisible for the not-found expiry (seed r6-C06-1).
+func c06notFoundIsNotAnError(c *Ctx) {
+	rule := "C06.R11"
+	f := c.fn(rule, "core/stores/sqlx", "unmarshalRow")
+	if f == nil {
+		return
+	}
+	ps := c.paths(rule, f, px.Config{})
+	n := 0
+	held := c.forall(rule, "core/stores/sqlx.unmarshalRow", "ErrNotFound is returned only after rows.Err() was found nil (an iteration that ended with a driver error is an error, not an empty result)", f, ps, func(p *px.Path) (bool, string) {
+		if p.Exit != px.ExitReturn || len(p.Results) != 1 || !px.IsGlobalLoad(p.Results[0], mod+"core/stores/sqlx", "ErrNotFound") {
+			return true, ""
+		}
+		n++
+		for _, e := range p.All(px.KindIs(px.EvCall)) {
+			if e.Call.Method != nil && e.Call.Method.Name() == "Err" && p.Abs(e.Res).K == px.Nil {
+				return true, ""
+			}
+		}
+		return false, "ErrNotFound is returned without rows.Err() having been found nil: a fetch error on the first row is reported as \"no such row\", the cache stores the not-found placeholder, and the existing row is hidden until the placeholder expires"
+	})
+	if held && n == 0 {
+		c.R.Undecided(rule, "core/stores/sqlx.unmarshalRow#not-found", "the not-found return is recognised", "no path returns ErrNotFound")
+	}
+}
+
+// c06atomicTTL (C06.R12, round 6): value and TTL travel in ONE command. The two store methods the cache node writes
+// with — (*Redis).SetexCtx and SetnxExCtx — issue exactly one command on the connection, a SET/SETNX whose expiration
+// argument derives from the seconds parameter. SETNX followed by EXPIRE leaves a window in which a fault (or a crash
+// of the caller) stores the entry — e.g. the not-found placeholder — without any TTL: a persistent key (seed r6-C06-2).
+func c06atomicTTL(c *Ctx) {
+	rule := "C06.R12"
+	for _, name := range []string{"(*Redis).SetexCtx", "(*Redis).SetnxExCtx"} {
+		f := c.fn(rule, "core/stores/redis", name)
+		if f == nil {
+			continue
+		}
+		var secP *ssa.Parameter
+		for _, p := range f.Params {
+			if p.Name() == "seconds" || typeString(p.Type()) == "int" {
+				secP = p
+			}
+		}
+		ps := c.paths(rule, f, px.Config{})
+		c.forall(rule, "core/stores/redis."+name, "exactly one command is sent, and it carries the TTL derived from the seconds parameter", f, ps, func(p *px.Path) (bool, string) {
+			var cmds []*px.Event
+			for _, e := range p.All(px.KindIs(px.EvCall)) {
+				if e.Call.Method != nil && e.Call.Recv != nil && strings.HasSuffix(typeString(e.Call.Recv.Strip(false).Typ), "RedisNode") {
+					cmds = append(cmds, e)
+				}
+			}
+			if len(cmds) == 0 {
+				return true, "" // connection error path
+			}
+			if len(cmds) != 1 {
+				var ns []string
+				for _, e := range cmds {
+					ns = append(ns, e.Call.Method.Name())
+				}
+				return false, fmt.Sprintf("%d commands are sent (%s): value and TTL are not written atomically — a fault between them leaves the key without a TTL", len(cmds), strings.Join(ns, ", "))
+			}
+			e := cmds[0]
+			if !nameIn(e.Call.Method.Name(), []string{"Set", "SetNX", "SetEx", "SetEX"}) {
+				return false, "the command is " + e.Call.Method.Name()
+			}
+			last := e.Call.Args[len(e.Call.Args)-1]
+			if secP != nil && !dependsOn(p, last, p.ParamSym(secP)) {
+				return false, "the expiration handed to " + e.Call.Method.Name() + " does not derive from the seconds parameter (" + last.Describe() + ")"
+			}
+			return true, ""
+		})
+	}
+	c.R.Min(rule, 2, "SetexCtx, SetnxExCtx")
+}
